@@ -9,7 +9,7 @@ for d in sorted(glob.glob('/verif/seeded/*')):
     name = os.path.basename(d)
     notes = open(d + '/notes.md').read() if os.path.exists(d + '/notes.md') else ''
     title = next((l.lstrip('# ').strip() for l in notes.splitlines() if l.startswith('#')), '')
-    title = title.split('—', 1)[-1].strip().replace('|', '/')
+    title = (title.split('—', 1)[-1].strip() or m.get('title', '')).replace('|', '/')
     n += 1; two += len(m['caught_by']) > 1
     print(f"| {name} | {title} | {', '.join(m['caught_by'])} | {', '.join(m['missed_by'])} | {m.get('first_run','').replace('|','/')} |")
 print(f"\n{n} seeded changes, {two} caught by more than one check.")
